@@ -5,7 +5,7 @@
   All theorems hold for every axis length n1,n2,n3 ≥ 1, every commutative domain K with primitive roots, every
   spectator size — no bounds.  Obligations are listed in harness/props/c09.py.
 -/
-import NiftyVerif.Lemmas.HarmonicZero
+import NiftyVerif.Lemmas.HarmonicInstance
 
 namespace NiftyVerif.C09
 open NiftyVerif.Harmonic Finset
@@ -18,6 +18,11 @@ theorem dft_orthogonal [IsDomain K] (w wb : K) (n : Nat) (h : IsPrimitiveRoot w 
     sumTo n (fun j => dftMat w k j * dftMat wb j l) = if k = l then (n : K) else 0 := by
   rw [sumTo_eq_sum]; exact dft_orth w wb n h hb k l hk hl
 
+/-- non-vacuity: ω = -i is a primitive 4th root of unity in ℂ; row 1 of F against column 1 of F̄ gives 4 -/
+example : sumTo 4 (fun j => dftMat (-Complex.I) 1 j * dftMat Complex.I j 1) = ((4 : ℕ) : ℂ) := by
+  have := dft_orthogonal (-Complex.I) Complex.I 4 prim_negI (by simp) 1 1 (by decide) (by decide)
+  simpa using this
+
 /-- the zero mode of the transform of a position-space field is its integral Σ x·dvol
     (TIMES on a position-space domain; INVERSE_TIMES when the operator's domain is the harmonic one) -/
 theorem fft_zero_mode_is_integral (g : Grid K) (dvolD dvolT : K) (x : Tensor K) (p q : Nat) :
@@ -26,6 +31,10 @@ theorem fft_zero_mode_is_integral (g : Grid K) (dvolD dvolT : K) (x : Tensor K) 
   obtain ⟨c1, _, _, _, _, _, c7, _⟩ := fftApply_cases g dvolD dvolT x
   rw [c1, c7]
   exact ⟨posBranch_zero g dvolD x p q, posBranch_zero g dvolT x p q⟩
+
+/-- non-vacuity (no hypotheses): instance on the 4×2×1 grid over ℂ with a non-constant field -/
+example : fftApply gridC false (1 / 4) (1 / 2) 1 xC ⟨1, 0, 0, 0, 2⟩ = gridSum gridC 1 2 (fun i => xC i * (1 / 4)) :=
+  (fft_zero_mode_is_integral gridC (1 / 4) (1 / 2) xC 1 2).1
 
 /-- the four code formulas are T, Tᴴ, T⁻¹, T⁻ᴴ of ONE T (= mode 1), given dvol_t·dvol_d·ncells = 1 -/
 theorem fft_modes_consistent [IsDomain K] (g : Grid K) (hg : GridOK g) (dh : Bool) (dvolD dvolT : K)
@@ -62,6 +71,13 @@ theorem fft_modes_consistent [IsDomain K] (g : Grid K) (hg : GridOK g) (dh : Boo
     · rw [(cs x).2.2.2.2.1, (cs y).2.2.2.2.2.1]; exact harm_adjoint P Q g hg σ hσ dvolD hσD x y
     · rw [(cs x).2.2.2.2.2.2.1, (cs y).2.2.2.2.2.2.2]; exact pos_adjoint P Q g hg σ hσ dvolT hσT x y
 
+/-- non-vacuity: the 4×2×1 grid over ℂ (ω = -i, -1, 1), dvol_d = 1/4, dvol_t = 1/2, 8 cells: 1/2·1/4·8 = 1;
+    conjugation = complex conjugation -/
+example (x : Tensor ℂ) (i : Idx) (hi : InBox gridC i) :
+    fftApply gridC false (1 / 4) (1 / 2) 4 (fftApply gridC false (1 / 4) (1 / 2) 1 x) i = x i :=
+  (fft_modes_consistent gridC gridC_ok false (1 / 4) (1 / 2) (by simp [gridC, Grid.ncells]; norm_num)
+    (starRingEnd ℂ) gridC_conj (by simp [map_ofNat]) (by simp [map_ofNat]) x x 1 1).1 i hi
+
 /-- the Hartley matrix is symmetric and real, both conventions -/
 theorem hartley_symmetric (s : Scal K) (σ : K →+* K) (hs : ScalOK s σ) (w wb : K) (hw : σ w = wb) (hwb : σ wb = w)
     (c : Bool) (k j : Nat) :
@@ -73,6 +89,10 @@ theorem hartley_symmetric (s : Scal K) (σ : K →+* K) (hs : ScalOK s σ) (w wb
     cases c <;>
       simp only [if_true, if_false, Bool.false_eq_true, map_mul, map_add, map_sub, map_one, map_neg,
         conj_half s σ hs, hs.conjI, conj_dftMat σ w wb hw, conj_dftMat σ wb w hwb] <;> ring
+
+/-- non-vacuity: ℂ with i, 1/2 and complex conjugation -/
+example : hartleyMat scalC (-Complex.I) Complex.I true 1 3 = hartleyMat scalC (-Complex.I) Complex.I true 3 1 :=
+  (hartley_symmetric scalC (starRingEnd ℂ) scalC_ok (-Complex.I) Complex.I (by simp) (by simp) true 1 3).1
 
 /-- the code's Hartley (Re F ± Im F of the FFT, `hartley3`) on real input is, for a one-axis grid, the product
     with `hartleyMat` (multi-axis: it is a·F + b·F̄ of the multi-axis FFT, see `hartley3_eq` in Lemmas) -/
@@ -88,6 +108,11 @@ theorem hartley_is_matrix (s : Scal K) (σ : K →+* K) (hs : ScalOK s σ) (g : 
   refine Finset.sum_congr rfl (fun j _ => ?_)
   unfold hartleyMat hA hB
   ring
+
+/-- non-vacuity: a one-axis grid of length 4 over ℂ -/
+example : ∃ g : Grid ℂ, ConjOK (starRingEnd ℂ) g ∧ g.n1 = 4 ∧ g.n2 = 1 ∧ g.n3 = 1 :=
+  ⟨{ gridC with n2 := 1, w2 := 1, wb2 := 1 },
+    ⟨fun z => Complex.conj_conj z, by simp [gridC], by simp, by simp [gridC], by simp [gridC, map_ofNat]⟩, rfl, rfl, rfl⟩
 
 /-- H² = n·1 (matrix form, one axis), both sign conventions -/
 theorem hartley_involutive_up_to_n [IsDomain K] (s : Scal K) (σ : K →+* K) (hs : ScalOK s σ) (w wb : K) (n : Nat)
@@ -110,11 +135,23 @@ theorem hartley_involutive_up_to_n [IsDomain K] (s : Scal K) (σ : K →+* K) (h
   · rw [if_neg e1, if_pos e2]; linear_combination (n : K) * h2
   · rw [if_neg e1, if_neg e2]; ring
 
+/-- non-vacuity: n = 4, ω = -i in ℂ, canonical convention, diagonal entry -/
+example : sumTo 4 (fun j => hartleyMat scalC (-Complex.I) Complex.I false 2 j
+    * hartleyMat scalC (-Complex.I) Complex.I false j 2) = ((4 : ℕ) : ℂ) := by
+  have := hartley_involutive_up_to_n scalC (starRingEnd ℂ) scalC_ok (-Complex.I) Complex.I 4 prim_negI (by simp)
+    false 2 2 (by decide) (by decide)
+  simpa using this
+
 /-- H² = ncells·1 for the code's multi-axis Hartley on real tensors (1-3 axes, any spectators), both conventions -/
 theorem hartley3_involutive_up_to_n [IsDomain K] (s : Scal K) (σ : K →+* K) (hs : ScalOK s σ) (g : Grid K)
     (hg : GridOK g) (hσ : ConjOK σ g) (c : Bool) (x : Tensor K) (hx : IsReal σ x) (i : Idx) (hi : InBox g i) :
     hartley3 s g c (hartley3 s g c x) i = (g.ncells : K) * x i :=
   hartley3_twice s σ hs g hg hσ c x hx i hi
+
+/-- non-vacuity: 4×2×1 grid over ℂ, a real non-constant tensor, both conventions -/
+example (c : Bool) (i : Idx) (hi : InBox gridC i) :
+    hartley3 scalC gridC c (hartley3 scalC gridC c xC) i = (gridC.ncells : ℂ) * xC i :=
+  hartley3_involutive_up_to_n scalC (starRingEnd ℂ) scalC_ok gridC gridC_ok gridC_conj c xC xC_real i hi
 
 /-- HartleyOperator: modes 1,2 coincide (H real symmetric), modes 4,8 coincide, mode 4 inverts mode 1,
     and the operator is self-adjoint w.r.t. the bilinear pairing on real tensors -/
@@ -167,6 +204,12 @@ theorem hartley_modes_consistent [IsDomain K] (s : Scal K) (σ : K →+* K) (hs 
     have r : ∀ i, hartley3 s g c y i * dvolT * x i = dvolT * (hartley3 s g c y i * x i) := by intro i; ring
     simp only [l, r, ← Finset.mul_sum, this]
 
+/-- non-vacuity: same instance, dvol_d = 1/4, dvol_t = 1/2 -/
+example (c : Bool) (i : Idx) (hi : InBox gridC i) :
+    hartleyCartesian scalC gridC c (1 / 4) (1 / 2) 4 (hartleyCartesian scalC gridC c (1 / 4) (1 / 2) 1 xC) i = xC i :=
+  (hartley_modes_consistent scalC (starRingEnd ℂ) scalC_ok gridC gridC_ok gridC_conj c (1 / 4) (1 / 2)
+    (by simp [gridC, Grid.ncells]; norm_num) (by simp [map_ofNat]) (by simp [map_ofNat]) xC xC xC_real xC_real 1 1).2.2.1 i hi
+
 /-- complex input: the code's split H(Re x) + i·H(Im x) is the complex-linear extension of the real map:
     multiplying the input by i (xr + i·xi ↦ -xi + i·xr) multiplies the output by i, and input with zero
     imaginary part gives the real transform -/
@@ -196,6 +239,11 @@ theorem hartley_complex_split (s : Scal K) (σ : K →+* K) (hs : ScalOK s σ) (
     linear_combination (-(hartley3 s g c xi i * (if mode &&& 3 != 0 then dvolD else dvolT))) * hs.II
   · rw [zero]; ring
 
+/-- non-vacuity: ℂ instance (only ScalOK is needed) -/
+example (i : Idx) : hartleyApplyComplex scalC gridC true (1 / 4) (1 / 2) 1 xC (fun _ => 0) i
+    = hartleyCartesian scalC gridC true (1 / 4) (1 / 2) 1 xC i :=
+  (hartley_complex_split scalC (starRingEnd ℂ) scalC_ok gridC true (1 / 4) (1 / 2) 1 xC (fun _ => 0) i).2
+
 /-- smoothing with σ = 0 is the identity (the code's shortcut), and the general formula H⁻¹ diag(k) H with the
     kernel value exp(0) = 1 everywhere is the identity too (so the shortcut is consistent with the formula) -/
 theorem smoothing_sigma0_id [IsDomain K] (s : Scal K) (σ : K →+* K) (hs : ScalOK s σ) (g : Grid K) (hg : GridOK g)
@@ -209,4 +257,9 @@ theorem smoothing_sigma0_id [IsDomain K] (s : Scal K) (σ : K →+* K) (hs : Sca
     simp only [smoothApply, Bool.false_eq_true, if_false, one_mul]
     exact (hartley_modes_consistent s σ hs g hg hσ c dvolD dvolT hv hσD hσT x x hx hx 0 0).2.2.1 i hi
 
+
+/-- non-vacuity: ℂ instance -/
+example (i : Idx) (hi : InBox gridC i) : smoothApply scalC gridC true (1 / 4) (1 / 2) false (fun _ => 1) xC i = xC i :=
+  (smoothing_sigma0_id scalC (starRingEnd ℂ) scalC_ok gridC gridC_ok gridC_conj true (1 / 4) (1 / 2)
+    (by simp [gridC, Grid.ncells]; norm_num) (by simp [map_ofNat]) (by simp [map_ofNat]) (fun _ => 1) xC xC_real).2 i hi
 end NiftyVerif.C09
